@@ -34,7 +34,7 @@ LEGAL_PREFIXES = ['', 'r', 'R', 'u', 'U']
 
 def run(ctx):
     for fn in (r1_failed_line_offset, r1_failed_lineno, r1_google_body_line, r1_freeform_regroup, r1_slice_example,
-               r1_overwrite_lineno, r1_docstring_start, r2_first_frame, r3_docstring_prefixes, r3_def_line_pattern, r4_freeform_offset):
+               r1_overwrite_lineno, r1_docstring_start, r2_first_frame, r3_docstring_prefixes, r3_def_line_pattern, r4_freeform_offset, r5_exec_lines_are_physical_lines):
         ctx.rep.rule(fn, ctx)
 
 
@@ -571,6 +571,68 @@ def r4_freeform_offset(ctx):
 
 
 # ---------------------------------------------------------------------------
+def r5_exec_lines_are_physical_lines(ctx):
+    """the line arithmetic of failed_line_offset uses n_exec_lines = len(exec_lines) as "number of source lines of the part" (denotation Lw - Lp).
+    That only holds if exec_lines is exactly the slice of physical source lines the part was cut from: it is set by the constructor and is not
+    extended or replaced by the parser / runner afterwards (the dump command filters a copy of a doctest that is never run again: C19.R4)."""
+    rep = ctx.rep
+    allowed = {'xdoctest.doctest_part.DoctestPart.__init__', 'xdoctest.runner._convert_to_test_module'}
+    n = 0
+    MUT = ('append', 'extend', 'insert', 'pop', 'remove', 'clear', 'sort', 'reverse')
+    for func in ctx.prog.funcs.values():
+        if func.module.name == 'xdoctest._tokenize':
+            continue
+        for x in walk_scope(func.node):
+            site = None
+            if isinstance(x, (ast.Assign, ast.AugAssign, ast.AnnAssign)):
+                tg = x.targets if isinstance(x, ast.Assign) else [x.target]
+                for t in tg:
+                    for tt in ([t] if not isinstance(t, (ast.Tuple, ast.List)) else t.elts):
+                        base = tt.value if isinstance(tt, ast.Subscript) else tt
+                        if isinstance(base, ast.Attribute) and base.attr == 'exec_lines':
+                            site = x
+            elif isinstance(x, ast.Call) and isinstance(x.func, ast.Attribute) and x.func.attr in MUT and isinstance(x.func.value, ast.Attribute) and x.func.value.attr == 'exec_lines':
+                site = x
+            if site is None:
+                continue
+            n += 1
+            ok = func.qualname in allowed
+            if not ok and isinstance(site, ast.Assign) and isinstance(site.value, ast.ListComp) and len(site.value.generators) == 1 and not site.value.generators[0].ifs and \
+                    isinstance(site.value.generators[0].iter, ast.Attribute) and site.value.generators[0].iter.attr == 'exec_lines':
+                ok = True       # a line-by-line rewrite keeps the number of lines
+            rep.ob('C08.R5', ctx.loc(func, site), '%s: %s' % (func.qualname.rsplit('.', 1)[-1], ctx.src(site)), ok,
+                   'the constructor stores the lines it was given / the dump conversion' if ok else
+                   'the executable lines of a part are changed after it was cut: len(exec_lines) is no longer the number of physical source lines, so the line '
+                   'reported for a got/want failure (first want line = part start + n_exec_lines) is shifted', nontrivial=not ok, anchor=func.qualname)
+    rep.floor('C08.R5', 'writers of exec_lines', n, 1)
+    # n_exec_lines is the plain length
+    fn = ctx.func('xdoctest.doctest_part.DoctestPart.n_exec_lines')
+    rets = [r for r in ast.walk(fn.node) if isinstance(r, ast.Return)]
+    recv = fn.node.args.args[0].arg
+    ok = len(rets) == 1 and isinstance(rets[0].value, ast.Call) and is_name(rets[0].value.func, 'len') and rets[0].value.args and \
+        isinstance(rets[0].value.args[0], ast.Attribute) and rets[0].value.args[0].attr == 'exec_lines' and is_name(rets[0].value.args[0].value, recv)
+    rep.ob('C08.R5', ctx.loc(fn, fn.node), 'n_exec_lines = len(self.exec_lines)', ok, 'plain length' if ok else 'n_exec_lines is not the number of executable lines', nontrivial=False, anchor=fn.qualname)
+    # the slicer hands the constructor the plain slice of the chunk
+    fchunk = ctx.func('xdoctest.parser.DoctestParser._package_chunk')
+    slicer = fchunk.nested.get('slice_example')
+    if slicer is not None:
+        rd = ctx.rd(slicer)
+        g = ctx.cfg(slicer)
+        for n_ in g.nodes:
+            for c in node_calls(n_):
+                if isinstance(c.func, ast.Attribute) and c.func.attr == 'DoctestPart' or is_name(c.func, 'DoctestPart'):
+                    a0 = c.args[0] if c.args else next((k.value for k in c.keywords if k.arg == 'exec_lines'), None)
+                    v = a0
+                    if isinstance(a0, ast.Name):
+                        ds = rd.at(n_, a0.id)
+                        v = ds[0].value if len(ds) == 1 and isinstance(ds[0].value, ast.AST) else None
+                    sp = [a.arg for a in slicer.node.args.args]
+                    ok = isinstance(v, ast.Subscript) and isinstance(v.slice, ast.Slice) and is_name(v.slice.lower, sp[0]) and is_name(v.slice.upper, sp[1]) and v.slice.step is None
+                    rep.ob('C08.R5', ctx.loc(slicer, c), 'DoctestPart(exec_lines=<source lines>[%s:%s])' % (sp[0], sp[1]), ok,
+                           'a part receives exactly its slice of the source lines' if ok else 'the executable lines handed to the part are not the plain slice of the chunk', anchor=fchunk.qualname)
+
+
+# ---------------------------------------------------------------------------
 from ..selftest import fire, silent      # noqa: E402
 
 DE = 'xdoctest/doctest_example.py'
@@ -578,6 +640,7 @@ SA = 'xdoctest/static_analysis.py'
 CO = 'xdoctest/core.py'
 PA = 'xdoctest/parser.py'
 VARIANTS = [
+    fire('single-mode-terminator-stored-in-exec-lines', 'C08.R5', ('xdoctest/parser.py', "        example = slice_example(s1, s2, want_lines)\n", "        example = slice_example(s1, s2, want_lines)\n        if mode_hint == 'single':\n            example.exec_lines = example.exec_lines + ['']\n")),
     fire('line-from-frame-f_lineno', 'C08.R2', ('xdoctest/doctest_example.py', "                            found_lineno = sub_tb.tb_lineno\n", "                            found_lineno = sub_tb.tb_frame.f_lineno\n")),
     fire('gotwant-offset-off-by-one', 'C08.R1', (DE, "                offset += self.failed_part.n_exec_lines + 1\n", "                offset += self.failed_part.n_exec_lines\n")),
     fire('offset-missing-minus-one', 'C08.R1', (DE, "            offset -= 1\n            return offset\n", "            return offset\n")),
